@@ -201,6 +201,8 @@ class RefSimulation(object):
         t0 = self._time
         t1 = t0 + float(duration)
         log = list(log) if log is not None else list(self._state_names)
+        # (a variable named twice is logged once, as by myokit)
+        log = list(dict.fromkeys(log))
         log_times = np.asarray(log_times, dtype=float)
         if np.any(np.diff(log_times) < 0):
             raise ValueError('log_times must be non-decreasing')
